@@ -1081,6 +1081,9 @@ func (x *Exec) forStmt(s *ast.ForStmt, st *State, label string) {
 	spec := x.loopSpec(s)
 	env := x.loopEnv(st)
 	env.loopVar = x.findLoopVar(s)
+	if cntVar != nil && isZeroTerm(cntInit) && types.Identical(cntVar.Type().Underlying(), types.Typ[types.Int]) {
+		env.loopIdxVar = cntVar
+	}
 	if spec != nil {
 		for _, gs := range spec.Inits {
 			v := x.specValue(gs.Expr, env.at(st))
@@ -1369,6 +1372,7 @@ type loopEnvT struct {
 	loopIdxKey string
 	visitedKey string
 	loopVar    types.Object
+	loopIdxVar types.Object
 	entry      *State
 }
 
@@ -1379,6 +1383,7 @@ func (le *loopEnvT) at(st *State) *SpecEnv {
 	e.loopIdxKey = le.loopIdxKey
 	e.visitedKey = le.visitedKey
 	e.loopVar = le.loopVar
+	e.loopIdxVar = le.loopIdxVar
 	return &e
 }
 
@@ -1593,4 +1598,9 @@ func (x *Exec) ghostVarKey(name string) string {
 		return x.ghostKey(name)
 	}
 	return "gv:" + name
+}
+
+
+func isZeroTerm(t Term) bool {
+	return t.S == "0" || t.S == "#x0000000000000000"
 }
